@@ -2,6 +2,7 @@ package sequence
 
 import (
 	"bufio"
+	"bytes"
 	"encoding/binary"
 	"encoding/json"
 	"errors"
@@ -12,6 +13,7 @@ import (
 	"runtime"
 	"sort"
 	"sync"
+	"sync/atomic"
 
 	"github.com/iotaledger/hive.go/kvstore"
 	"github.com/iotaledger/hive.go/kvstore/mapdb"
@@ -47,6 +49,10 @@ type logStore struct {
 func (l *logStore) Get(key kvstore.Key) (kvstore.Value, error) {
 	runtime.Gosched()
 	v, err := l.KVStore.Get(key)
+	if !bytes.Equal(key, seqKey) { // (the neighbour sequence's traffic is not part of the history)
+		runtime.Gosched()
+		return v, err
+	}
 	e := logEntry{}
 	if err == nil && len(v) == 8 {
 		e.v = int(binary.BigEndian.Uint64(v))
@@ -62,6 +68,10 @@ func (l *logStore) Get(key kvstore.Key) (kvstore.Value, error) {
 func (l *logStore) Set(key kvstore.Key, value kvstore.Value) error {
 	runtime.Gosched()
 	err := l.KVStore.Set(key, value)
+	if !bytes.Equal(key, seqKey) {
+		runtime.Gosched()
+		return err
+	}
 	e := logEntry{set: true, v: -3}
 	if len(value) == 8 {
 		e.v = int(binary.BigEndian.Uint64(value))
@@ -136,6 +146,23 @@ func (c *concRun) phase(r *rand.Rand, g, m int, markBefore []any) {
 	}
 	var wg sync.WaitGroup
 	start := make(chan struct{})
+	// a NEIGHBOUR: another Sequence (another key, same store, interval 1: a store write per call) is used by a goroutine of its
+	// own all the while - sequences are independent objects, what one does must not show in the other
+	var stop atomic.Bool
+	nbDone := make(chan struct{})
+	go func() {
+		defer close(nbDone)
+		nb, err := kvstore.NewSequence(c.ls, []byte("neighbour"), 1)
+		if err != nil {
+			return
+		}
+		<-start
+		for !stop.Load() {
+			_, _ = nb.Next()
+		}
+	}()
+	defer func() { <-nbDone }()
+	defer stop.Store(true)
 	for a := 0; a < g; a++ {
 		wg.Add(1)
 		go func(a int) {
@@ -156,6 +183,7 @@ func (c *concRun) phase(r *rand.Rand, g, m int, markBefore []any) {
 	}
 	close(start)
 	wg.Wait()
+	stop.Store(true)
 
 	var all []callRec
 	ordered := true // every goroutine saw increasing numbers
